@@ -102,6 +102,7 @@ type uniqueID struct {
 func (u *uniqueID) sample() [24]byte {
 	u.counter = u.counter.Add(u.counter, common.Big1)
 	var id [24]byte
-	copy(id[:], u.counter.Bytes())
+	b := u.counter.Bytes()
+	copy(id[len(id)-len(b):], b) // fixed-width (right-aligned) encoding, so distinct counters give distinct IDs
 	return id
 }
